@@ -93,11 +93,10 @@ Qed.
 Lemma pre_disconnect_callbacks m sid ns : callbacks (fst (pre_disconnect m sid ns)) = callbacks m.
 Proof. unfold pre_disconnect. destruct (room_of m ns PNone); reflexivity. Qed.
 Lemma mgr_disconnect_callbacks m sid ns :
-  callbacks (mgr_disconnect m sid ns) =
-  match ns_rooms m ns with Some _ => adel str_eqb (callbacks m) sid | None => callbacks m end.
+  callbacks (mgr_disconnect m sid ns) = adel str_eqb (callbacks m) sid.
 Proof.
-  unfold mgr_disconnect. destruct (ns_rooms m ns) as [rm|]; [|reflexivity].
-  cbv zeta. destruct (is_pending _ sid ns); cbn [callbacks];
+  unfold mgr_disconnect. destruct (ns_rooms m ns) as [rm|]; unfold disc_release; cbv zeta;
+    destruct (is_pending _ sid ns); cbn [callbacks]; [| |reflexivity|reflexivity];
     rewrite (fold_leave_callbacks (fun _ : pv => sid) (fun r => r)); reflexivity.
 Qed.
 
@@ -127,7 +126,6 @@ Qed.
 Lemma mgr_disconnect_inv m sid ns : AckInv m -> AckInv (mgr_disconnect m sid ns).
 Proof.
   intros [Hn Hs]. unfold AckInv. rewrite mgr_disconnect_callbacks.
-  destruct (ns_rooms m ns); [|split; assumption].
   split; [apply nodup_adel; exact Hn|apply vals_adel; exact Hs].
 Qed.
 Lemma mstep_inv_ack m o : AckInv m -> AckInv (mstep m o).
@@ -334,7 +332,7 @@ Proof.
   - apply next_id_ext, enter_room_callbacks.
   - apply next_id_ext, leave_room_callbacks.
   - apply next_id_ext, close_room_callbacks.
-  - unfold next_id. rewrite mgr_disconnect_callbacks. destruct (ns_rooms m ns); [|reflexivity].
+  - unfold next_id. rewrite mgr_disconnect_callbacks.
     rewrite (e_aget_adel str_eqb str_eqb_eq) by apply HI.
     rewrite str_neq; [reflexivity|]. intro; subst. eapply Hnd; reflexivity.
   - apply next_id_ext, pre_disconnect_callbacks.
